@@ -669,7 +669,7 @@ def _scalar(dt, x):
     return '(SFlt %s)' % _tok(x)
 
 
-OTHER = '(PB64 (mkdt BBool false) [])'
+OTHER = '(PNp (mkdt BBool true) (SInt 0))'   # never equal to a normal form (those contain no NumPy scalar)
 
 
 def _val(v):
